@@ -458,7 +458,13 @@ def check_content_unwraps(facts, res, cg):
                               "%s (reachable from reload / refresh) calls %s() on the result of %s without a dominating shape test: a stored item whose "
                               "bytes hash to its name but whose JSON has another shape aborts the calling thread instead of being skipped or reported" % (
                                   m.path, t.callee.name, cn), m.loc(t.line))
-    res.floor("H7", "unwraps of JSON shape conversions on the reload / refresh paths", n, 3)
+    # the anchor is the set of shape conversions on those paths, unwrapped or not: code that has no unwrap left on them is the goal, not a
+    # lost anchor
+    n_conv = sum(1 for mp, m in members.items() if not is_adapter_impl_or_module(m) for _, t in m.calls()
+                 if t.callee is not None and (t.callee.name in JSON_CONV or t.callee.name == "get") and
+                 "serde_json" in ((t.callee.path or "") + (t.callee.self_ty or "")))
+    res.instance("H7", "%d unwrap / expect sites on JSON shape conversions inspected (%d shape conversions on the reload / refresh paths)" % (n, n_conv), None)
+    res.floor("H7", "JSON shape conversions on the reload / refresh paths", n_conv, 6)
     # H8: identifier indices (u32 counters of Revision / DeltaId, parsed from stored content) are not incremented with an
     # overflow-checked `+` (a panic in builds with overflow checks, a silent wrap otherwise)
     res.rule("H8", "no overflow-panicking arithmetic on an identifier index taken from stored content")
@@ -503,14 +509,17 @@ def check_content_unwraps(facts, res, cg):
     res.rule("H9", "the document reader never absorbs a failed object load (Err propagated, returned or unwrapped)")
     rd = facts.body("melda::Melda::read")
     n9 = 0
-    objr = roles_of(facts).path("obj_reader")
-    if rd is not None and objr:
+    from ..common import ADAPTER_TRAIT as _AT
+    loaders = {ob.path for ob in facts.repo_bodies() if ob.impl_adt == "datastorage::DataStorage" and
+               any(t.callee is not None and t.callee.trait == _AT and t.callee.name == "read_object" for _, t in ob.calls())}
+    objr = None
+    if rd is not None and loaders:
         for m in _mo9(facts, rd):
             mcfg = cfg_of(m)
             for s_ in cg.sites[m.path]:
                 if s_.fanout or s_.term.dest is None or not s_.targets:
                     continue
-                if not any((t_.path == objr or cg.reaches(t_, objr)) and "Result<" in (t_.local_ty(0) or "") for t_ in s_.targets):
+                if not any((t_.path in loaders or any(cg.reaches(t_, lp_) for lp_ in loaders)) and "Result<" in (t_.local_ty(0) or "") for t_ in s_.targets):
                     continue
                 n9 += 1
                 how = _result_handled(m, s_.block, s_.term.dest)
